@@ -128,31 +128,37 @@ Fixpoint name_children (nm : namer) (deps : list (string * (dep * ppkg)))
       ((n, e) :: rest, nm2)
   end.
 
+(* the `for (id, _dep, precise) in sorted_dependencies(pkg)? { collect_packages(..)?; }` loop,
+   parametrised by the recursive call *)
+Fixpoint collect_list (rec : string -> ppkg -> lockacc * namer -> res (entryname * (lockacc * namer)))
+         (ds : list (string * (dep * ppkg))) (st : lockacc * namer) : res (lockacc * namer) :=
+  match ds with
+  | [] => Ok st
+  | e :: t =>
+      match rec (fst e) (snd (snd e)) st with
+      | Ok r => collect_list rec t (snd r)
+      | Panic => Panic | Err => Err | OutOfFuel => OutOfFuel
+      end
+  end.
+
 (* collect_packages *)
 Fixpoint collect (fuel : nat) (mt : vreq -> ver -> bool) (r : resolution) (name : string) (p : ppkg)
          (st : lockacc * namer) : res (entryname * (lockacc * namer)) :=
   match fuel with
   | O => OutOfFuel
   | S f =>
-      let '(en, nm1) := namer_name (snd st) name p in
+      let en_nm := namer_name (snd st) name p in
       match sorted_dependencies mt r p with
       | Ok deps =>
-          let '(edeps, nm2) := name_children nm1 deps in
-          let existed := acc_mem en (fst st) in
-          let acc' := acc_insert en (p, edeps) (fst st) in
-          if existed then Ok (en, (acc', nm2))
+          let ed_nm := name_children (snd en_nm) deps in
+          let existed := acc_mem (fst en_nm) (fst st) in
+          let acc' := acc_insert (fst en_nm) (p, fst ed_nm) (fst st) in
+          (* "Only recurse if this is the first time we've encountered this precise package."
+             (sorted_dependencies is called a second time by the code; same result) *)
+          if existed then Ok (fst en_nm, (acc', snd ed_nm))
           else
-            (* sorted_dependencies is called a second time by the code; same result *)
-            match (fix go (ds : list (string * (dep * ppkg))) (st : lockacc * namer) : res (lockacc * namer) :=
-                     match ds with
-                     | [] => Ok st
-                     | (n, (_, q)) :: t =>
-                         match collect f mt r n q st with
-                         | Ok (_, st') => go t st'
-                         | Panic => Panic | Err => Err | OutOfFuel => OutOfFuel
-                         end
-                     end) deps (acc', nm2) with
-            | Ok st' => Ok (en, st')
+            match collect_list (collect f mt r) deps (acc', snd ed_nm) with
+            | Ok st' => Ok (fst en_nm, st')
             | Panic => Panic | Err => Err | OutOfFuel => OutOfFuel
             end
       | Panic => Panic | Err => Err | OutOfFuel => OutOfFuel
